@@ -4,6 +4,9 @@ package main
 
 import (
 	"fmt"
+	"strings"
+
+	"go.flow.arcalot.io/pluginsdk/schema"
 )
 
 func init() { register("gate", cmdGate) }
@@ -42,7 +45,12 @@ func genGateCase(r *rng, id string) *pvCase {
 		}
 		return []int{0, 0, 1, 5}[r.intn(4)]
 	}
-	switch r.intn(4) {
+	switch r.intn(5) {
+	case 4:
+		// two stop inputs: the stop condition is accepted once, whatever the first one said
+		acts = append(acts, pvAction{Op: "cancelled", Arg: gateVal(r), DelayMs: settle()},
+			pvAction{Op: "cancelled", Arg: gateVal(r), DelayMs: settle()},
+			pvAction{Op: "enabling", Arg: gateVal(r), DelayMs: settle()}, pvAction{Op: "starting", Arg: "valid"})
 	case 0:
 		// the three inputs, enabled value arbitrary
 		rest := []pvAction{{Op: "enabling", Arg: gateVal(r)}, {Op: "starting", Arg: "valid"}}
@@ -74,11 +82,65 @@ func genGateCase(r *rng, id string) *pvCase {
 	return c
 }
 
+// gateBoolSpellings: every value the generators of the c04 / gate / loop streams write for a bool gate, in the case
+// variants they use and a few more, plus values the schema must reject.
+func gateBoolSpellings(r *rng) []any {
+	out := []any{}
+	seen := map[string]bool{}
+	add := func(v any) {
+		k := fmt.Sprintf("%T:%v", v, v)
+		if !seen[k] {
+			seen[k] = true
+			out = append(out, v)
+		}
+	}
+	for _, v := range gateValues {
+		add(v)
+	}
+	words := append(append([]string{}, c04True...), c04False...)
+	for _, w := range words {
+		add(w)
+		add(strings.ToUpper(w))
+		add(strings.ToLower(w))
+		if len(w) > 1 {
+			add(strings.ToUpper(w[:1]) + strings.ToLower(w[1:]))
+			// a random mix of cases
+			b := []byte(strings.ToLower(w))
+			for i := range b {
+				if r.chance(1, 2) && b[i] >= 'a' && b[i] <= 'z' {
+					b[i] -= 32
+				}
+			}
+			add(string(b))
+		}
+	}
+	for _, w := range []string{"maybe", "", " true", "true ", "2", "-1", "01", "t", "f", "nope", "truee", "null", "~"} {
+		add(w)
+	}
+	for _, n := range []int64{-1, 0, 1, 2, 10} {
+		add(n)
+	}
+	return out
+}
+
 func cmdGate(args []string) int {
 	c, _ := parseCommon("gate", args, nil)
 	w := openOut(c.out)
 	defer w.close()
 	r := newRng(c.seed)
+	if c.skip == 0 {
+		// the bool schema itself: the engine's decision on `enabled` goes through it, the model's boolRead must agree
+		for i, v := range gateBoolSpellings(r.fork()) {
+			res, err := schema.NewBoolSchema().Unserialize(v)
+			line := map[string]any{"kind": "boolread", "id": fmt.Sprintf("boolread-%d-%d", c.seed, i), "arg": v, "ok": err == nil}
+			if err == nil {
+				line["value"] = res.(bool)
+			}
+			w.emit(line)
+		}
+	} else {
+		r.fork()
+	}
 	for i := 0; i < c.n; i++ {
 		cr := r.fork()
 		if i < c.skip {
